@@ -1,5 +1,7 @@
 import Vata.Parse
 import Vata.LtsEngine
+import Vata.LtsEngineCalls
+import Vata.Proofs.LtsUtilSS
 /-!
 # Driver side of the LTS engine check (kind `lts`, property C16) against the engine MODEL
 
@@ -56,6 +58,20 @@ def check (args res : List String) : Except String (List String × String) := do
     let missing := R.filter (fun p => !rel.contains p)
     let f := if extra.isEmpty && missing.isEmpty then []
       else [s!"mismatch lts-engine-model: C++ and model differ: only C++={extra} only model={missing}"]
-    pure (f, s!"trans={bchar trans} busy={bchar busy}")
+    -- the INSTRUMENTED engine (`Vata/LtsEngineCalls.lean`): same result (`C16_trace_erasure`), and the histories of helper-class calls it
+    -- emits lie inside the call disciplines of the class models (`C16_engine_discipline_partial` proves this for `SmartSet` under `DeltaOK L`,
+    -- which is evaluated here on the input itself; for `SplittingRelation` the check on the input is all there is)
+    let mut f := f
+    let mut disc := "-"
+    if overload == 0 && trans && n ≤ 12 then
+      let blocks ← getE (args[2]? >>= (fun s => (splitC s '/').mapM (fun b => natList? b ','))) "bad partition"
+      let brel ← getE (args[3]? >>= parseRel?) "bad block relation"
+      match Vata.LEC.computeSimulationI L blocks brel outSize with
+      | some (R', t) =>
+        if !(R'.all (fun p => R.contains p) && R.all (fun p => R'.contains p)) then f := f ++ ["mismatch instrumented engine result differs from the engine model"]
+        if !Vata.LU.SS.okAll [] t.ss then f := f ++ ["mismatch SmartSet call history of the engine model leaves the class discipline"]
+        disc := "1"
+      | none => f := f ++ ["mismatch instrumented engine returned none"]
+    pure (f, s!"trans={bchar trans} busy={bchar busy} discipline={disc}")
 
 end LtsEngineChk
